@@ -307,6 +307,29 @@ def FirstSync (L : Nat) : List Item → Prop
   | .samdec _ _ _ _ _ _ h fs :: _ =>
     occ (h ++ fs.flatten) syncWord = (List.range fs.length).map (fun j => 10 + L * j)
 
+/-- what the code needs (weaker than `FirstSync`): in the first SAM/DEC packet the FIRST TWO occurrences of
+    the sync word are the first two frame starts, or the packet carries one frame and its start is the only
+    occurrence.  The pattern may occur as data anywhere from the second frame on. -/
+def FirstSync' (L : Nat) : List Item → Prop
+  | [] => True
+  | .foreign _ :: rest => FirstSync' L rest
+  | .samdec _ _ _ _ _ _ h fs :: _ =>
+    (∃ rest, occ (h ++ fs.flatten) syncWord = 10 :: (10 + L) :: rest) ∨
+    (occ (h ++ fs.flatten) syncWord = [10] ∧ fs.length = 1)
+
+/-- the same condition said without lists: the first SAM/DEC packet has no occurrence of the sync word that
+    begins inside the 10-byte header or inside the first frame's data -/
+def FirstClean (L : Nat) : List Item → Prop
+  | [] => True
+  | .foreign _ :: rest => FirstClean L rest
+  | .samdec _ _ _ _ _ _ h fs :: _ => ∀ i ∈ occ (h ++ fs.flatten) syncWord, i < 10 + L → i = 10
+
+/-- the exact condition on the first SAM/DEC packet: the inferred frame length is `L` -/
+def FirstLen (L : Nat) : List Item → Prop
+  | [] => True
+  | .foreign _ :: rest => FirstLen L rest
+  | .samdec _ _ _ _ _ _ h fs :: _ => inferLength syncWord (h ++ fs.flatten) = .ok (L : Int)
+
 theorem flatten_length_const (L : Nat) (fs : List Bytes) (h : ∀ f ∈ fs, f.length = L) :
     fs.flatten.length = fs.length * L := by
   induction fs with
@@ -332,8 +355,7 @@ theorem onPacket_foreign (pkt : Bytes) (h : Foreign pkt) (fl : Option Int) :
 open Acra.Model in
 theorem onPacket_samdec (L : Nat) (l : Bytes) (c s a b p : Nat) (h : Bytes) (fs : List Bytes)
     (hwf : Item.WF L (.samdec l c s a b p h fs)) (fl : Option Int)
-    (hfl : fl = some (L : Int) ∨ (fl = none ∧
-      occ (h ++ fs.flatten) syncWord = (List.range fs.length).map (fun j => 10 + L * j))) :
+    (hfl : fl = some (L : Int) ∨ (fl = none ∧ inferLength syncWord (h ++ fs.flatten) = .ok (L : Int))) :
     udpData (packet l c s a b p h fs) = some (datagram c s a b p h fs) ∧
     onPacket syncWord (datagram c s a b p h fs) fl = (fs, some (L : Int), none) := by
   obtain ⟨hl, h17, hc, hs, ha, hb, hp, hh, hne, hfs, hsz⟩ := hwf
@@ -372,11 +394,12 @@ theorem onPacket_samdec (L : Nat) (l : Bytes) (c s a b p : Nat) (h : Bytes) (fs 
       exact hloop
     · subst hfl
       simp only
-      rw [inferLength_frames L fs.length hk (h ++ fs.flatten) hplen hocc]
+      rw [hocc]
       exact hloop
 
-theorem framesLoop_items (L : Nat) (items : List Item) (hwf : ∀ it ∈ items, it.WF L) (fl : Option Int)
-    (hfl : fl = some (L : Int) ∨ (fl = none ∧ FirstSync L items)) :
+/-- the main induction, under the exact condition `FirstLen` -/
+theorem framesLoop_items_len (L : Nat) (items : List Item) (hwf : ∀ it ∈ items, it.WF L) (fl : Option Int)
+    (hfl : fl = some (L : Int) ∨ (fl = none ∧ FirstLen L items)) :
     framesLoop syncWord ((items.map Item.bytes).filterMap udpData) fl = (items.flatMap Item.frames, none) := by
   induction items generalizing fl with
   | nil => simp [framesLoop]
@@ -385,7 +408,7 @@ theorem framesLoop_items (L : Nat) (items : List Item) (hwf : ∀ it ∈ items, 
     cases it with
     | foreign pkt =>
       have hf : Foreign pkt := (hwf (.foreign pkt) (by simp)).1
-      have hfl' : fl = some (L : Int) ∨ (fl = none ∧ FirstSync L items) := by
+      have hfl' : fl = some (L : Int) ∨ (fl = none ∧ FirstLen L items) := by
         rcases hfl with h | ⟨h1, h2⟩
         · exact Or.inl h
         · exact Or.inr ⟨h1, h2⟩
@@ -400,7 +423,7 @@ theorem framesLoop_items (L : Nat) (items : List Item) (hwf : ∀ it ∈ items, 
     | samdec l c s a b p h fs =>
       have hw := hwf (.samdec l c s a b p h fs) (by simp)
       have hfl' : fl = some (L : Int) ∨ (fl = none ∧
-          occ (h ++ fs.flatten) syncWord = (List.range fs.length).map (fun j => 10 + L * j)) := by
+          inferLength syncWord (h ++ fs.flatten) = .ok (L : Int)) := by
         rcases hfl with h | ⟨h1, h2⟩
         · exact Or.inl h
         · exact Or.inr ⟨h1, h2⟩
@@ -410,6 +433,165 @@ theorem framesLoop_items (L : Nat) (items : List Item) (hwf : ∀ it ∈ items, 
       simp only [framesLoop, h2]
       rw [ihh (some (L : Int)) (Or.inl rfl)]
 
+/-- the first two occurrences decide the inferred length -/
+theorem FirstSync'.firstLen {L : Nat} : ∀ {items : List Item}, (∀ it ∈ items, it.WF L) → FirstSync' L items → FirstLen L items
+  | [], _, _ => trivial
+  | .foreign _ :: rest, hwf, h => FirstSync'.firstLen (items := rest) (fun x hx => hwf x (by simp [hx])) h
+  | .samdec l c s a b p hd fs :: _, hwf, h => by
+    obtain ⟨_, _, _, _, _, _, _, hh, _, hfs, _⟩ := hwf (.samdec l c s a b p hd fs) (by simp)
+    have hflat := flatten_length_const L fs (fun f hf => (hfs f hf).1)
+    show inferLength syncWord (hd ++ fs.flatten) = .ok (L : Int)
+    unfold inferLength
+    rw [Acra.Lemmas.Search.bmh_eq_occ _ syncWord (by simp [syncWord])]
+    rcases h with ⟨rest, h⟩ | ⟨h, h1⟩
+    · rw [h]
+      simp
+      omega
+    · rw [h]
+      simp [SamDec_PCM_HDR_LEN, hh, hflat, h1]
+      omega
+
+/-- the old hypothesis (sync word at the frame starts only) is a special case -/
+theorem FirstSync.firstSync' {L : Nat} : ∀ {items : List Item}, (∀ it ∈ items, it.WF L) → FirstSync L items → FirstSync' L items
+  | [], _, _ => trivial
+  | .foreign _ :: rest, hwf, h => FirstSync.firstSync' (items := rest) (fun x hx => hwf x (by simp [hx])) h
+  | .samdec l c s a b p hd fs :: _, hwf, h => by
+    obtain ⟨_, _, _, _, _, _, _, _, hne, _, _⟩ := hwf (.samdec l c s a b p hd fs) (by simp)
+    show (∃ rest, occ (hd ++ fs.flatten) syncWord = 10 :: (10 + L) :: rest) ∨
+      (occ (hd ++ fs.flatten) syncWord = [10] ∧ fs.length = 1)
+    have h : occ (hd ++ fs.flatten) syncWord = (List.range fs.length).map (fun j => 10 + L * j) := h
+    rw [h]
+    match hk : fs.length with
+    | 0 => exact absurd (List.length_eq_zero_iff.mp hk) hne
+    | 1 => right; simp
+    | k + 2 =>
+      left
+      rw [List.range_succ_eq_map, List.range_succ_eq_map]
+      exact ⟨_, by simp; rfl⟩
+
+/-- "no occurrence begins inside the header or inside the first frame's data" is the same condition -/
+theorem firstSync'_iff_clean {L : Nat} : ∀ {items : List Item}, (∀ it ∈ items, it.WF L) →
+    (FirstSync' L items ↔ FirstClean L items)
+  | [], _ => Iff.rfl
+  | .foreign _ :: rest, hwf => firstSync'_iff_clean (items := rest) (fun x hx => hwf x (by simp [hx]))
+  | .samdec l c s a b p hd fs :: _, hwf => by
+    obtain ⟨_, _, _, _, _, _, _, hh, hne, hfs, _⟩ := hwf (.samdec l c s a b p hd fs) (by simp)
+    have hflat := flatten_length_const L fs (fun f hf => (hfs f hf).1)
+    have hpw := Acra.Lemmas.Search.occ_pairwise (hd ++ fs.flatten) syncWord
+    show ((∃ rest, occ (hd ++ fs.flatten) syncWord = 10 :: (10 + L) :: rest) ∨
+      (occ (hd ++ fs.flatten) syncWord = [10] ∧ fs.length = 1)) ↔
+      ∀ i ∈ occ (hd ++ fs.flatten) syncWord, i < 10 + L → i = 10
+    -- the first frame starts with the sync word, and so does the second when there is one
+    obtain ⟨f, fs', rfl⟩ := List.exists_cons_of_ne_nil hne
+    obtain ⟨hfl, hfsync⟩ := hfs f (by simp)
+    have hL : 4 ≤ L := by
+      have := congrArg List.length hfsync
+      simp [syncWord] at this
+      omega
+    have h10 : 10 ∈ occ (hd ++ (f :: fs').flatten) syncWord := by
+      rw [Acra.Lemmas.Search.mem_occ]
+      refine ⟨by simp [syncWord, hh, hfl]; omega, ?_⟩
+      rw [show (10 : Nat) = hd.length from hh.symm, List.drop_left]
+      simp only [List.flatten_cons, syncWord, List.length_cons, List.length_nil]
+      rw [List.take_append_of_le_length (by rw [hfl]; omega)]
+      exact hfsync
+    constructor
+    · rintro (⟨rest, h⟩ | ⟨h, _⟩) i hi hlt
+      · rw [h] at hi hpw
+        simp only [List.mem_cons] at hi
+        rcases hi with rfl | rfl | hi
+        · rfl
+        · omega
+        · have := (List.pairwise_cons.mp (List.pairwise_cons.mp hpw).2).1 i hi
+          omega
+      · rw [h] at hi
+        simpa using hi
+    · intro hcl
+      match hocc : occ (hd ++ (f :: fs').flatten) syncWord with
+      | [] => rw [hocc] at h10; simp at h10
+      | [o0] =>
+        rw [hocc] at h10
+        simp only [List.mem_singleton] at h10
+        subst h10
+        right
+        refine ⟨rfl, ?_⟩
+        cases fs' with
+        | nil => rfl
+        | cons g gs =>
+          exfalso
+          obtain ⟨hgl, hgsync⟩ := hfs g (by simp)
+          have : 10 + L ∈ occ (hd ++ (f :: g :: gs).flatten) syncWord := by
+            rw [Acra.Lemmas.Search.mem_occ]
+            refine ⟨by simp [syncWord, hh, hfl, hgl]; omega, ?_⟩
+            rw [show hd ++ (f :: g :: gs).flatten = (hd ++ f) ++ (g ++ gs.flatten) by simp,
+              show 10 + L = (hd ++ f).length by simp [hh, hfl], List.drop_left]
+            simp only [syncWord, List.length_cons, List.length_nil]
+            rw [List.take_append_of_le_length (by rw [hgl]; omega)]
+            exact hgsync
+          rw [hocc] at this
+          simp at this
+          omega
+      | o0 :: o1 :: rest =>
+        left
+        rw [hocc] at h10 hpw hcl
+        have hp1 := List.pairwise_cons.mp hpw
+        have hp2 := List.pairwise_cons.mp hp1.2
+        have h01 : o0 < o1 := hp1.1 o1 (by simp)
+        have ho0 : o0 = 10 := by
+          apply hcl o0 (by simp)
+          simp only [List.mem_cons] at h10
+          rcases h10 with h | h | h
+          · omega
+          · omega
+          · have := hp1.1 10 (by simp [h]); omega
+        subst ho0
+        -- the second frame exists (otherwise every occurrence begins before 10 + L) and starts at 10 + L
+        have ho1 : o1 = 10 + L := by
+          have hmem : o1 ∈ occ (hd ++ (f :: fs').flatten) syncWord := by rw [hocc]; simp
+          cases fs' with
+          | nil =>
+            have := ((Acra.Lemmas.Search.mem_occ _ _ _).mp hmem).1
+            simp [syncWord, hh, hfl] at this
+            have := hcl o1 (by simp) (by omega)
+            omega
+          | cons g gs =>
+            obtain ⟨hgl, hgsync⟩ := hfs g (by simp)
+            have : 10 + L ∈ occ (hd ++ (f :: g :: gs).flatten) syncWord := by
+              rw [Acra.Lemmas.Search.mem_occ]
+              refine ⟨by simp [syncWord, hh, hfl, hgl]; omega, ?_⟩
+              rw [show hd ++ (f :: g :: gs).flatten = (hd ++ f) ++ (g ++ gs.flatten) by simp,
+                show 10 + L = (hd ++ f).length by simp [hh, hfl], List.drop_left]
+              simp only [syncWord, List.length_cons, List.length_nil]
+              rw [List.take_append_of_le_length (by rw [hgl]; omega)]
+              exact hgsync
+            rw [hocc] at this
+            simp only [List.mem_cons] at this
+            rcases this with h | h | h
+            · omega
+            · exact h.symm
+            · have hlt := hp2.1 (10 + L) h
+              have := hcl o1 (by simp) hlt
+              omega
+        subst ho1
+        exact ⟨rest, rfl⟩
+
+theorem framesLoop_items' (L : Nat) (items : List Item) (hwf : ∀ it ∈ items, it.WF L) (fl : Option Int)
+    (hfl : fl = some (L : Int) ∨ (fl = none ∧ FirstSync' L items)) :
+    framesLoop syncWord ((items.map Item.bytes).filterMap udpData) fl = (items.flatMap Item.frames, none) :=
+  framesLoop_items_len L items hwf fl (hfl.imp id fun h => ⟨h.1, h.2.firstLen hwf⟩)
+
+theorem framesLoop_items (L : Nat) (items : List Item) (hwf : ∀ it ∈ items, it.WF L) (fl : Option Int)
+    (hfl : fl = some (L : Int) ∨ (fl = none ∧ FirstSync L items)) :
+    framesLoop syncWord ((items.map Item.bytes).filterMap udpData) fl = (items.flatMap Item.frames, none) :=
+  framesLoop_items' L items hwf fl (hfl.imp id fun h => ⟨h.1, h.2.firstSync' hwf⟩)
+
+
+theorem items_WF_of_recs {L : Nat} {recs : List (Nat × Nat × Item)} (hwf : ∀ r ∈ recs, r.2.2.WF L) :
+    ∀ it ∈ recs.map (·.2.2), it.WF L := by
+  intro it hit
+  simp only [List.mem_map] at hit
+  obtain ⟨r, hr, rfl⟩ := hit
+  exact hwf r hr
 
 theorem Item.WF.length_lt {L : Nat} {it : Item} (h : it.WF L) : it.bytes.length < 2 ^ 32 := by
   cases it with
